@@ -138,8 +138,8 @@ class Gen:
         for _ in range(length):
             kind = r.choices(
                 ['append', 'insert', 'insert_into_range', 'batch_remove', 'batch_replace', 'batch_insert_into', 'batch_insert',
-                 'clear', 'setitem', 'delitem', 'imul', 'q_all_qubits', 'q_mkeys', 'q_next', 'q_prev', 'q_earliest'],
-                [22, 30, 5, 4, 4, 4, 6, 3, 3, 3, 1, 3, 2, 3, 3, 4],
+                 'clear', 'setitem', 'delitem', 'imul', 'q_all_qubits', 'q_mkeys', 'q_next', 'q_prev', 'q_earliest', 'rebuild'],
+                [22, 30, 5, 4, 4, 4, 6, 3, 3, 3, 1, 3, 2, 3, 3, 4, 5],
             )[0]
             c = {'call': kind}
             if kind == 'append':
@@ -169,6 +169,8 @@ class Gen:
                 c.update(qubits=r.sample(range(NQ), r.choice([1, 2])), start=r.choice([0, 1, 2, 5]))
             elif kind == 'q_prev':
                 c.update(qubits=r.sample(range(NQ), r.choice([1, 2])), end=r.choice([None, 0, 1, 2, 3, 9]))
+            elif kind == 'rebuild':
+                c.update(how=r.choice(REBUILDS))
             elif kind == 'q_earliest':
                 o = self.op()
                 c.update(op=o, end=r.choice([None, None, 0, 1, 2, 9]))
@@ -177,6 +179,38 @@ class Gen:
 
 
 # ------------------------------------------------------------------------------ running the implementation
+# public ways of obtaining an equal circuit: the model treats each as the identity on the moments (Model.C05.imul 1)
+REBUILDS = ['copy', 'with_tags', 'untagged', 'freeze_unfreeze', 'unfreeze_copy', 'slice', 'transform_qubits', 'add_empty', 'from_moments']  # (map_operations(identity) drops empty moments: 'same basic structure' only)
+
+
+def rebuild(cirq, w, circ, how):
+    if how == 'copy':
+        return circ.copy()
+    if how == 'with_tags':
+        return circ.with_tags('t%d' % len(circ.tags))
+    if how == 'untagged':
+        return circ.untagged
+    if how == 'freeze_unfreeze':
+        return circ.freeze().unfreeze()
+    if how == 'unfreeze_copy':
+        return circ.unfreeze(copy=True)
+    if how == 'slice':
+        return circ[:]
+    if how == 'transform_qubits':
+        return circ.transform_qubits(lambda q: q)
+    if how == 'add_empty':
+        return circ + cirq.Circuit()
+    if how == 'from_moments':
+        return cirq.Circuit.from_moments(*circ.moments)
+    raise common.InfraError(f'unknown rebuild {how}')
+
+
+def to_model(call):
+    if call['call'] != 'rebuild':
+        return call
+    return {'call': 'q_all_qubits'} if call.get('noop') else {'call': 'imul', 'n': 1}
+
+
 def resolve_picks(w, circ, call):
     """batch_remove / batch_replace refer to operations present in the live circuit (or a bogus one)"""
     flat = [(i, o) for i, m in enumerate(circ.moments) for o in m.operations]
@@ -209,6 +243,8 @@ def run_impl(w: World, calls):
         kind = call['call']
         if kind in ('batch_remove', 'batch_replace') and 'pick' in call:
             call = resolve_picks(w, circ, call)
+        if kind == 'rebuild' and call['how'] == 'untagged' and circ is not None and not circ.tags:
+            call = dict(call, noop=True)  # `untagged` of a circuit without tags is the circuit itself (placement cache included)
         resolved.append(call)
         before = w.circuit_desc(circ) if circ is not None else []
         try:
@@ -237,6 +273,10 @@ def run_impl(w: World, calls):
                 del circ[call['index']]
             elif kind == 'imul':
                 circ *= call['n']
+            elif kind == 'rebuild':
+                if call.get('noop'):
+                    ret = sorted(q.x for q in circ.all_qubits())
+                circ = rebuild(cirq, w, circ, call['how'])
             elif kind == 'q_all_qubits':
                 ret = sorted(q.x for q in circ.all_qubits())
             elif kind == 'q_mkeys':
@@ -263,7 +303,7 @@ def run_impl(w: World, calls):
         specs.append((call, before, after))
         # every cached summary must answer as a freshly rebuilt equal circuit would; calling them here
         # also (re)populates the caches, so a missing invalidation shows at the next mutation
-        fresh = cirq.Circuit(list(circ.moments))
+        fresh = cirq.Circuit(list(circ.moments), tags=circ.tags)
         checks = {
             'all_qubits': (circ.all_qubits(), fresh.all_qubits()),
             'is_measurement': (cirq.is_measurement(circ), cirq.is_measurement(fresh)),
@@ -312,7 +352,7 @@ def check_history(ctx, w, calls, record=True):
 def check_histories(ctx, w, histories, record=True):
     """returns per history a list of problems: ('witness'|'corr', signature, what, replay)"""
     impl = [run_impl(w, calls) for calls in histories]
-    model_outs = ctx.driver.ask([{'p': 'C05', 'op': 'history', 'calls': r[0]} for r in impl])
+    model_outs = ctx.driver.ask([{'p': 'C05', 'op': 'history', 'calls': [to_model(c) for c in r[0]]} for r in impl])
     spec_reqs, spec_meta, spans = [], [], []
     for r in impl:
         sreqs, smeta = spec_requests(r[2])
